@@ -497,7 +497,20 @@ static void handle(int argc, char **argv) {
         cif_handler_tp handler;
         walk_ctx ctx;
         int r2, first = 1;
-        /* (a) get_value */
+        /* (a) get_value — for two requests in three INTO AN EXISTING value object of the caller (cif.h: "if *value is not NULL
+           then the object it points to is overwritten"): a table with an entry, a list with two elements, a number or a string;
+           whatever it held must be released (exact leak accounting) and the result must be the stored value all the same */
+        switch (osz % 6) {
+            case 1: if (cif_value_create(CIF_TABLE_KIND, &g) == CIF_OK) { cif_value_tp *e = NULL;
+                        if (cif_value_create(CIF_UNK_KIND, &e) == CIF_OK) { (void) cif_value_init_numb(e, 12.5, 0.5, 1, 5); (void) cif_value_set_item_by_key(g, NAME_K, e); cif_value_free(e); } }
+                    break;
+            case 2: if (cif_value_create(CIF_LIST_KIND, &g) == CIF_OK) { cif_value_tp *e = NULL;
+                        if (cif_value_create(CIF_UNK_KIND, &e) == CIF_OK) { (void) cif_value_copy_char(e, NAME_X); (void) cif_value_insert_element_at(g, 0, e); (void) cif_value_insert_element_at(g, 1, g); cif_value_free(e); } }
+                    break;
+            case 3: if (cif_value_create(CIF_UNK_KIND, &g) == CIF_OK) (void) cif_value_init_numb(g, -1.25e30, 1e28, -28, 5); break;
+            case 4: if (cif_value_create(CIF_UNK_KIND, &g) == CIF_OK) (void) cif_value_copy_char(g, NAME_K); break;
+            default: break;   /* 0, 5: a fresh object is requested */
+        }
         r2 = cif_container_get_value(b, NAME_X, &g);
         /* an item with several packets: the first value is provided together with CIF_AMBIGUOUS_ITEM (documented) */
         OUT(" g="); if (r2 == CIF_OK || (r2 == CIF_AMBIGUOUS_ITEM && g != NULL && strcmp(route, "additem") == 0)) fdump_pub(stdout, g); else OUT("!%d", r2);
